@@ -3,6 +3,7 @@
 What is decided is the *shape* of the arithmetic, as a necessary condition of dimensional soundness:
 which fields are combined with which operator, under which guard, and which results may be returned.
 Numerical accuracy and the name-matching fall-backs of Unit * / are not decided."""
+import json
 import re
 
 from rules import guards as G
@@ -343,12 +344,102 @@ def check_unit_products(ctx, rep):
             okc = True
         else:
             why = "a unit is %s under %s" % ("kept" if not o1 else "dropped", c1 if not o1 else c2)
+    if not okc:
+        # the explicit-loop spelling: units are pushed into the result under the same two tests
+        pushes = {bi for bi, t in mb.calls() if strip_generics(mir.callee_name(t) or "") == "std::vec::Vec::push"}
+        if pushes:
+            pos = PC.enumerate_paths(mb, lambda x: x in pushes)
+            atoms = PC.atoms_of(pos)
+            Dm = next((a for a in atoms if a.startswith("eq(") and ".dimensions" in a), None)
+            Sc = next((a for a in atoms if a.startswith("approx_eq(") and ".scale" in a), None)
+            if Dm and Sc and pos:
+                o1, c1 = PC.entails(pos, lambda asg: bool(asg.get(Dm)) and bool(asg.get(Sc)), atoms)
+                # and nothing else decides: the only other conditions on the way are loop control
+                extra = [a for a in atoms if a not in (Dm, Sc) and not a.startswith("some(") and "Iterator>::next" not in a]
+                if o1 and not extra:
+                    okc = True
+                else:
+                    why = "a unit is pushed under %s" % (c1 if not o1 else extra)
     if okc:
         rep.ok("R-DIM", "match_units:filter", mb.where(), "a unit is kept exactly when its dimensions equal the wanted ones and its scale is approx_eq (truth table)")
     else:
         rep.bad("R-DIM", "R-DIM:match_units:filter", mb.where(), "match_units: %s" % why)
     return n
 
+
+
+def _origin_places(body, op, depth=14):
+    """reprs of the parameter-rooted places (and constants) a value can come from, through copies, references, Option / Result
+    plumbing (Ok / Some payloads, `?`, unwrap_or) and multiply-assigned locals"""
+    out = set()
+    seen = set()
+
+    def from_place(pl, d):
+        if pl is None or d <= 0:
+            return
+        root = pl["l"]
+        if 0 < root <= body.arg_count:
+            out.add(repr(G.describe_place(body, pl)))
+            return
+        key = (root, json.dumps(pl["p"], sort_keys=True))
+        if key in seen:
+            return
+        seen.add(key)
+        if pl["p"]:
+            # a field of a local that is itself a copy of some place (a spliced helper's parameters): the same field of that place
+            srcs = []
+            for _bi, si, rv in body.defs().get(root, []):
+                sp = mir.op_place(rv["op"]) if si != "term" and rv["k"] == "use" else None
+                if sp is None:
+                    srcs = None
+                    break
+                srcs.append(sp)
+            if srcs:
+                for sp in srcs:
+                    from_place({"l": sp["l"], "p": list(sp["p"]) + list(pl["p"])}, d - 1)
+                return
+        for _bi, si, rv in body.defs().get(root, []):
+            if si == "term":
+                t = body.term(_bi)
+                nm = strip_generics(mir.callee_name(t) or "?")
+                if nm.endswith(("Option::unwrap_or", "Try>::branch", "FromResidual>::from_residual", "Option::or", "Clone>::clone", "Option::copied", "Option::cloned", "Deref>::deref")):
+                    for a in t["args"]:
+                        c = mir.op_const(a)
+                        if c is not None:
+                            out.add("const")
+                        else:
+                            from_place(mir.op_place(a), d - 1)
+                else:
+                    out.add("call:" + nm.split("::")[-1])
+            else:
+                k = rv["k"]
+                if k in ("use", "cast"):
+                    c = mir.op_const(rv["op"])
+                    if c is not None:
+                        out.add("const")
+                    else:
+                        from_place(mir.op_place(rv["op"]), d - 1)
+                elif k in ("ref", "rawptr"):
+                    from_place(rv["place"], d - 1)
+                elif k == "agg":
+                    if rv.get("variant") == "Err" and str(rv.get("adt", "")).endswith("result::Result"):
+                        continue  # the value taken out of a Result by `?` is never the payload of its Err
+                    if not rv["ops"]:
+                        out.add("const")
+                    for o in rv["ops"]:
+                        c = mir.op_const(o)
+                        if c is not None:
+                            out.add("const")
+                        else:
+                            from_place(mir.op_place(o), d - 1)
+                else:
+                    out.add("other:" + k)
+
+    c0 = mir.op_const(op)
+    if c0 is not None:
+        return {"const"}
+    from_place(mir.op_place(op), depth)
+    return out
 
 # ---------------------------------------------------------------------- U6 Number + - * /
 def check_number_ops(ctx, rep):
@@ -370,6 +461,12 @@ def check_number_ops(ctx, rep):
         else:
             rep.bad("R-DIM", "R-DIM:" + key, b.where(mk[0][0]) if mk else b.where(), "Number::%s computes %s, expected self.value %s other.value" % (meth, [repr(v) for v in vals], {"Add": "+", "Sub": "-", "Mul": "*", "Div": "/"}[op]))
         errs = _ret_payload(b, "Err")
+        if not errs:
+            # the failure may be built in a spliced helper and travel to the return value through `?`
+            for rb in range(b.n):
+                for st in b.blocks[rb]["stmts"]:
+                    if st["k"] == "assign" and st["rv"]["k"] == "agg" and st["rv"].get("variant") == "Err" and str(st["rv"].get("adt", "")).endswith("result::Result"):
+                        errs.append((rb, None))
         if meth in ("add", "sub"):
             # fails exactly for two different units, both present: truth table over the conditions the function tests
             from rules import pathcond as PC
@@ -399,20 +496,13 @@ def check_number_ops(ctx, rep):
             # the unit of the result is one of the operands' units
             n += 1
             key = "number-%s:keeps-unit" % meth
-            units = []
+            units = set()
             for _bi, t in mk:
-                u = G.describe(b, t["args"][1])
-                # unit.unwrap_or(&DEFAULT_UNIT) where `unit` is assigned self.unit / other.unit in the branches
-                if u.kind == "call" and u.v.endswith("Option::unwrap_or") and u.args and re.fullmatch(r"_\d+", repr(u.args[0])):
-                    l = int(repr(u.args[0])[1:])
-                    for _db, si, rv in b.defs().get(l, []):
-                        units.append(repr(G.describe(b, rv["op"])) if si != "term" and rv["k"] == "use" else "?")
-                else:
-                    units.append(repr(u))
-            if units and all(("_1.unit" in u or "_2.unit" in u) for u in units):
+                units |= _origin_places(b, t["args"][1])
+            if units and units <= {"_1.unit", "_2.unit", "const"} and (units & {"_1.unit", "_2.unit"}):
                 rep.ok("R-DIM", key, b.where(mk[0][0]), "the result carries self.unit / other.unit")
             else:
-                rep.bad("R-DIM", "R-DIM:" + key, b.where(), "the unit of the result is %s, not one of the operands' units" % units)
+                rep.bad("R-DIM", "R-DIM:" + key, b.where(), "the unit of the result comes from %s, not only from the operands' units" % sorted(units))
         else:
             n += 1
             key = "number-%s:unit-from-unit-%s" % (meth, meth)
